@@ -107,6 +107,14 @@ fn handle_client(stream: TcpStream, dbs: Arc<Databases>) {
                                 _ => log::debug!("Error on sending and error request"),
                             }
                         }
+                        // A versioned write refused because of its version is not acknowledged
+                        Response::VersionError { msg, .. } => {
+                            log::debug!("Error: {}", msg);
+                            match client.sender.try_send(format!("error {} \n", msg)) {
+                                Ok(_) => (),
+                                _ => log::debug!("Error on sending and error request"),
+                            }
+                        }
                         _ => match client.sender.try_send(format!("ok \n")) {
                             Ok(_) => log::debug!("Success processed"),
                             _ => log::debug!("Success processed! error on sender"),
